@@ -165,7 +165,10 @@ func TestCheck(t *testing.T) {
 		rest = append(rest[k:], rest[:k]...)
 	}
 	// units are cut into chunks of ≤ chunk cases, so that a unit full of fatal cases is shared by several workers
-	const chunk = 1500
+	chunk := 1500
+	if thorough {
+		chunk = 12000
+	}
 	var ids []string
 	for _, u := range append(first, rest...) {
 		if u.Weight <= chunk {
